@@ -188,6 +188,81 @@ PROPS = {
                 "every outcome is compared with the Lean requirement-parser model (slices handed to the external parsers are re-parsed by the real crates); non-trivial = distinct texts",
         "trusted": ["PEP 440 specifier and URL grammars are external (pep440_rs, url)"], "assumptions": [],
     },
+    "C05": {
+        "lean_targets": ["Pep508.Theorems.C05"],
+        "theorems": ["Pep508.C05.false_literal", "Pep508.C05.quote_choice"],
+        "suites": [{"name": "algebra", "args": ["C05"]}],
+        "rule": "a pool of markers is built through the real API along random construction paths (typed expressions, and/or/negate, simplify_extras, "
+                "simplify/complexify_python_versions, plus shapes generated on purpose); for every pool marker: to_dnf() and the Display text are compared with the Lean DNF model (path collection with collect_edges, inequality and star-range "
+                "recognition, the batched redundant-term and clause elimination, rendering) given the version spellings interned in this process; Display / try_to_string / "
+                "contents() / serde must agree; the text must parse back to an == marker (equivalence for FALSE and deprecated spellings, as the property states); the DNF clauses "
+                "are evaluated term by term on region environments against the marker; top_level_extra is checked against satisfying assignments; non-trivial = distinct texts",
+        "trusted": ["diagrams in which one version value is interned under two spellings (K1) are compared semantically only"], "assumptions": [],
+    },
+    "C08": {
+        "lean_targets": ["Pep508.Theorems.C05"],
+        "theorems": ["Pep508.C05.false_literal", "Pep508.C05.quote_choice"],
+        "suites": [{"name": "req", "args": ["C08"]}],
+        "rule": "accepted requirement derivations (name x extras x none/bare/parenthesised specifiers/@ URL incl. `;`/`#`/`${VAR}` inside x marker) are rendered, re-parsed, compared "
+                "field by field (marker by equivalence only for FALSE / deprecated spellings), re-rendered, and sent through serde_json both ways; every parse outcome is compared "
+                "with the Lean requirement-parser model; non-trivial = distinct accepted texts",
+        "trusted": ["pep440_rs / url printers re-parse to themselves (checked on every generated value by the round trip itself)"], "assumptions": [],
+    },
+}
+
+# suites are ready, theorems still being proved: not claimed until then
+PENDING = {
+    "C14": {
+        "lean_targets": ["Pep508.Model.Interner"],
+        "theorems": ["Pep508.C02.eval_and"],
+        "suites": [{"name": "hist", "args": ["C14"]}],
+        "rule": "(1) the id-level model (arena + unique table + AND cache + complemented edges) is run by the driver on pool operands after random warm-up contents of the arena and cache: "
+                "its result must denote Tree.and of the operands, equal the implementation's dump, be stable under a cache hit, under operand swap and in a fresh arena, and ids must be "
+                "injective; (2) one query script (parse x6, and/or/not/simplify_extras x7) runs in fresh worker processes after four histories (none, 30 unrelated markers, the same "
+                "literals under other spellings first, the same work in opposite order): dumps, DNF, text, pairwise ==, cmp and hash-consistency are compared across processes; "
+                "non-trivial = (round, history) pairs",
+        "trusted": ["FxHashMap / boxcar are assumed to be a correct map / append-only vector"], "assumptions": [],
+    },
+    "C15": {
+        "lean_targets": ["Pep508.Model.Interner"],
+        "theorems": ["Pep508.C02.eval_and"],
+        "suites": [{"name": "hist", "args": ["C15"]}],
+        "rule": "2, 8 and 16 threads released by a barrier execute the same script (parse, and, or, not, simplify_extras, render, DNF, ==, cmp, hash) on literals salted per run so that all "
+                "threads race to create the same NEW nodes; every thread's transcript must equal the others' and a sequential run in a fresh process; panics and a 60 s deadlock "
+                "watchdog are reported; non-trivial = (round, thread count) pairs",
+        "trusted": ["memory ordering of the lock-free arena reads and deadlock-freedom of std::sync::Mutex are outside any executable model"], "assumptions": [],
+    },
+    "C16": {
+        "lean_targets": ["Pep508.Model.Kind"],
+        "theorems": ["Pep508.C02.eval_and"],
+        "suites": [{"name": "hist", "args": ["C16"]}],
+        "rule": "a pool of markers is built through the real API along random construction paths (typed expressions, and/or/negate, simplify_extras, "
+                "simplify/complexify_python_versions, plus shapes generated on purpose); random pairs/triples: cmp is compared with the Lean transcription of the structural Ord (variant order, key, Ranges bound comparison, lexicographic edges); "
+                "cmp == Equal iff ==, antisymmetry, transitivity, equal => equal hash; a table of requirement strings (same URL under different verbatim texts / variable expansion / host case, "
+                "specifier and extras order, markers in different spellings) is checked pairwise and in triples for Eq/Ord/Hash agreement of Requirement and VerbatimUrl; order across fresh "
+                "processes is part of the C14 histories; non-trivial = pairs that are not equal",
+        "trusted": [], "assumptions": [],
+    },
+    "C18": {
+        "lean_targets": ["Pep508.Model.ReqParse"],
+        "theorems": ["Pep508.C06.marker_tree_never_panics"],
+        "suites": [{"name": "req", "args": ["C18"]}],
+        "rule": "EXHAUSTIVE URL tails of length <= 4 (quick) / 5 (thorough) over {x ; # space newline} x five following contexts (end, spaced marker, comment, glued marker, tabs), plus "
+                "16 URL texts with `${NAME}` forms (set / unset / empty / lower-case / unterminated / doubled / PROJECT_ROOT / values containing `;#` and `${...}`) x four process environments: "
+                "the outcome is compared with the Lean model (urlScan, expandEnvVars) and with the URL-end rule written from the property statement; given() must be the unexpanded slice and "
+                "the parsed URL the url-crate parse of the expanded text; expand_env_vars is compared with an independent scanner and the model; non-trivial = distinct URL slices accepted",
+        "trusted": ["url::Url::parse and its Display"], "assumptions": [],
+    },
+    "C19": {
+        "lean_targets": ["Pep508.Model.ReqParse"],
+        "theorems": ["Pep508.C06.marker_tree_never_panics"],
+        "suites": [{"name": "req", "args": ["C19"]}],
+        "rule": "33 shapes (scheme URLs, absolute/relative/Windows/UNC paths, `.`/`..`, every pip archive extension incl. two-part ones, near misses such as `foo.tar.gz.sig`, `x.tar.gz2`) x six "
+                "suffixes (none, extras, marker, both, spaced extras, trailing blanks): never accepted as a named requirement and rejected with the unsupported-requirement kind; every outcome "
+                "is compared with the Lean model (looksLikeUnnamed, splitScheme, splitExtras, looksLikeArchive with the std::path extension rules); split_scheme / split_extras are compared "
+                "directly; non-trivial = distinct texts",
+        "trusted": ["the unnamed-requirement parser (feature non-pep508-extensions) is exercised by the oracle only when the harness is built with that feature (thorough tier)"], "assumptions": [],
+    },
 }
 
 NOT_APPLICABLE = {}
@@ -195,6 +270,46 @@ NOT_APPLICABLE = {}
 _NOTE = ("Trusted: Lean 4.33 kernel (+ propext, Classical.choice, Quot.sound, audited per theorem); the hand-written model is tied to the code by "
          "differential correspondence on generated cases (sampled, not proved); ")
 MANIFEST_TEXT = {
+    "C05": {
+        "technique": "differential Lean model of to_dnf + Display (exact text) and round-trip oracle; DNF soundness theorems are added as proved (evidence lists them)",
+        "text": "The DNF path collection, the batched simplifier and the renderer are transcribed to Lean and compared clause-for-clause and character-for-character with the "
+                "implementation; the round trip Display -> parse -> == and the meaning of the DNF are decided on the implementation for every pool marker.",
+        "note": _NOTE + "partial until toDnf_sound is in the theorem list; the text-level parse(render(m)) = m is not a Lean theorem.",
+    },
+    "C08": {
+        "technique": "round-trip oracle on accepted derivations + differential requirement-parser model; rendering lemmas (FALSE literal, quote choice)",
+        "text": "Display / serde round trips of every accepted generated requirement, with the marker compared by equivalence only inside the property's carve-out.",
+        "note": _NOTE + "partial: no Lean theorem yet states parse (show r) = r; external printers (pep440_rs, url) are trusted to re-parse to themselves.",
+    },
+    "C14": {
+        "technique": "Lean id-level interner model (arena, unique table, AND cache, complemented edges) refining the diagram model; executable cross-check on warmed arenas; fresh-process history oracle",
+        "text": "The interner is an explicit state machine whose andI is checked (executably, on every case) to denote Tree.and whatever the arena and cache already hold and to give canonical ids; "
+                "refinement theorems are added as proved (evidence lists them). Fresh-process histories compare every observable; version-spelling differences are the known finding K1.",
+        "note": _NOTE + "partial until the refinement theorem is in the theorem list; FxHashMap/boxcar trusted.",
+    },
+    "C15": {
+        "technique": "atomic-step argument over the interner state machine (every mutating call holds the lock for its whole recursion: read from the code) + racing-threads oracle",
+        "text": "With each public mutating call one atomic step, any interleaving yields per-thread results equal to a sequential run (corollary of the C14 step theorems); threads racing to "
+                "create identical fresh nodes are compared with each other and with a sequential fresh process.",
+        "note": _NOTE + "partial by nature: memory ordering of lock-free reads, Mutex deadlock-freedom and the claim that the lock spans the whole recursion are outside the model.",
+    },
+    "C16": {
+        "technique": "Lean transcription of the structural Ord (Tree.cmp with version-ranges bound comparison) compared with cmp on every pair; lawfulness theorems added as proved; Eq/Ord/Hash oracle",
+        "text": "cmp of the implementation equals the model's Tree.cmp on literal dumps; Equal iff ==, antisymmetry, transitivity and hash agreement are checked on pairs and triples of markers, "
+                "requirements and verbatim URLs.",
+        "note": _NOTE + "partial until Tree.cmp lawfulness is in the theorem list.",
+    },
+    "C18": {
+        "technique": "Lean model of the URL scan and of `${NAME}` expansion compared exhaustively on bounded URL tails x contexts x environments; rule oracle from the property text",
+        "text": "urlScan (two stop events + ambiguity error) and expandEnvVars are executable Lean definitions compared with parse_url / expand_env_vars on every tail up to the bound; the "
+                "declarative URL-end theorem is added when proved.",
+        "note": _NOTE + "partial until the urlScan = declarative rule theorem is in the theorem list; url crate trusted.",
+    },
+    "C19": {
+        "technique": "Lean model of looks_like_unnamed_requirement / looks_like_archive / split_scheme / split_extras inside the requirement-parser model, compared on all shapes x suffixes",
+        "text": "Every shape x suffix is rejected with the unsupported-requirement kind by both implementation and model; helpers compared directly.",
+        "note": _NOTE + "partial: classification lemmas not yet proved in Lean; the unnamed parser is oracle-only.",
+    },
     "C10": {
         "technique": "Lean 4 theorem: the diagram of `python_version OP V` evaluates as PEP 440 release comparison of X.Y (all operators, all literals outside the carve-out), "
                      "negation clauses as structural equalities + dense-grid oracle and dump correspondence",
